@@ -462,8 +462,8 @@ def supporting_fact(ctx, name):
     if name == 'registry-new-only-in-semantic-state':
         callers = {f.id for f, c in all_calls(P, r'TypeRegistry::new$')}
         ssn = [f for f in P.fns.values() if f.id.endswith('SemanticState::new')]
-        has_u8 = bool(ssn) and any(x == ('str', 'u8') for c in ssn[0].blocks for x in [()]) or (
-            bool(ssn) and '"u8"' in json.dumps(ssn[0].raw['blocks']))
+        # `u8` is a row of the predefined-type table that SemanticState::new registers (R-TABLE builtins)
+        has_u8 = bool(ssn) and any(o.key.endswith('builtins|u8') for o in ctx.obs)
         return callers <= {'semantic::semantic_state::SemanticState::new'} and has_u8, 'callers of TypeRegistry::new: %s' % sorted(callers)
     if name in ('G9', 'P1', 'c10-d1'):
         tag = {'G9': 'G9', 'P1': 'P1', 'c10-d1': 'C10-D1'}[name]
